@@ -223,11 +223,11 @@ class OssSim final : public Engine {
   }
 
   // result of p equals synthesis of current parents (inherited part) with user additions carried over
-  struct Snap2 { std::string alias, def; CstType type; };
+  struct Snap2 { std::string alias, def; CstType type; std::string conv; };
   void CheckExecution(Ctx& c, PictID p, const std::vector<Snap2>& oldUser, bool autoDiscard, const std::string& trig);
   std::vector<Snap2> UserAdditions(PictID p) {
     std::vector<Snap2> v; auto* s = SourceOf(p); if (!s) return v;
-    for (const auto uid : s->schema.List()) if (!s->schema.Mods().IsTracking(uid)) v.push_back({ s->schema.GetRS(uid).alias, s->schema.GetRS(uid).definition, s->schema.GetRS(uid).type });
+    for (const auto uid : s->schema.List()) if (!s->schema.Mods().IsTracking(uid)) v.push_back({ s->schema.GetRS(uid).alias, s->schema.GetRS(uid).definition, s->schema.GetRS(uid).type, s->schema.GetRS(uid).convention });
     return v;
   }
 
